@@ -2,6 +2,7 @@ package rules
 
 import (
 	"go/token"
+	"strings"
 
 	"verif/sa/core"
 )
@@ -177,4 +178,65 @@ func runW8(c *core.Ctx) {
 		return
 	}
 	c.OK(cn, fd.Pos(), "%d sequence(s): every exit with sr = -1 has tested _F_disable_unknown", len(seqs))
+}
+
+// W10: the unknown-field test of a field-less struct. `_asm_OP_skip_empty` decides "unknown
+// field" by searching the skipped text for ':'. Only an object can carry a field; a string like
+// "a:b" is a type mismatch with or without the option.
+
+func init() {
+	register(&core.Rule{ID: "W10", Min: 1,
+		Doc: "DisallowUnknownFields on a struct without decodable fields: in the template of jitdec._asm_OP_skip_empty, the call that searches the skipped value for ':' (strings.IndexByte through call_go) is reached only after a `CMPB (IP)(r), $'{'` followed by a conditional jump that leaves the handler when the value is not an object.",
+		Run: runW10})
+}
+
+func runW10(c *core.Ctx) {
+	p := c.Prog
+	if p.GOARCH != "amd64" {
+		return
+	}
+	a := newAsmCtx(p, "internal/decoder/jitdec", "_Assembler")
+	cn := "internal/decoder/jitdec.(_Assembler)._asm_OP_skip_empty/objects-only"
+	for _, fd := range a.methods() {
+		if fd.Name.Name != "_asm_OP_skip_empty" {
+			continue
+		}
+		c.Analysed(handlerName(a.pk, fd))
+		seqs, ok := a.seqs(fd, asmEnv{}, 0)
+		if !ok || anyTrunc(seqs) {
+			c.Undecided(cn, fd.Pos(), "cannot enumerate the template")
+			return
+		}
+		found := false
+		for _, sq := range seqs {
+			ops := sq.Ops
+			guardAt, searchAt := -1, -1
+			for i, o := range ops {
+				if o.Kind == "Emit" && o.Mnem == "CMPB" && len(o.Ops) == 2 && o.Ops[1].Kind == "imm" && o.Ops[1].ImmOK && o.Ops[1].Imm == '{' && o.Ops[0].Kind == "mem" {
+					for j := i + 1; j < len(ops) && j <= i+2; j++ {
+						if ops[j].Kind == "Xjmp" && (ops[j].Mnem == "JNE" || ops[j].Mnem == "JNZ") {
+							guardAt = i
+						}
+					}
+				}
+				if o.Kind == "Helper" && o.Callee != nil && o.Callee.Name() == "call_go" && len(o.ArgVals) > 0 && o.ArgVals[0].sym != nil && strings.Contains(o.ArgVals[0].sym.Name(), "IndexByte") && searchAt < 0 {
+					searchAt = i
+				}
+			}
+			if searchAt < 0 {
+				continue
+			}
+			found = true
+			if guardAt >= 0 && guardAt < searchAt {
+				c.OK(cn, ops[searchAt].Pos, "the ':' search is reached only for values that start with '{'")
+			} else {
+				c.Bad(cn, ops[searchAt].Pos, "the skipped value is searched for ':' whatever its type: with DisallowUnknownFields a string such as \"a:b\" (or an array containing one) given to a struct without fields is reported as an unknown field and aborts the decode, while it is a plain type mismatch without the option and in encoding/json")
+			}
+		}
+		if !found {
+			c.OK(cn, fd.Pos(), "no ':' search in the template")
+		}
+		return
+	}
+	c.Undecided(cn, token.NoPos, "handler not found")
 }
